@@ -1,6 +1,6 @@
 CONSTANTS
-  NSlots = 26
-  Abs = TRUE
+  NSlots = 12
+  Abs = FALSE
   Lean = FALSE
   Vocab = "all"
 INIT Init
